@@ -246,24 +246,37 @@ class Folder:
             return self.summaries[key](self, args, kwargs)
         f = fref.node
         a = f.args
-        if a.vararg or a.kwarg or a.kwonlyargs:
-            raise AnalysisError(
-                f'folding: {fref!r} has */** parameters (not modelled)')
         names = [x.arg for x in a.posonlyargs + a.args]
+        konly = [x.arg for x in a.kwonlyargs]
+        posonly = {x.arg for x in a.posonlyargs}
         env = {}
         defaults = a.defaults
         for i, d in enumerate(defaults):
             pname = names[len(names) - len(defaults) + i]
             env[pname] = self.expr(d, {}, fref.mod, depth)
+        for x, d in zip(a.kwonlyargs, a.kw_defaults):
+            if d is not None:
+                env[x.arg] = self.expr(d, {}, fref.mod, depth)
         if len(args) > len(names):
-            raise AnalysisError(f'folding: too many arguments for {fref!r}')
+            if not a.vararg:
+                raise AnalysisError(
+                    f'folding: too many arguments for {fref!r}')
+            env[a.vararg.arg] = tuple(args[len(names):])
+        elif a.vararg:
+            env[a.vararg.arg] = ()
         for n, v in zip(names, args):
             env[n] = v
+        extra = {}
         for k, v in kwargs.items():
-            if k not in names:
+            if (k not in names and k not in konly) or k in posonly:
+                if a.kwarg:
+                    extra[k] = v
+                    continue
                 raise AnalysisError(f'folding: unknown keyword {k}')
             env[k] = v
-        for n in names:
+        if a.kwarg:
+            env[a.kwarg.arg] = extra
+        for n in names + konly:
             if n not in env:
                 raise AnalysisError(
                     f'folding: missing argument {n} for {fref!r}')
@@ -413,6 +426,23 @@ class Folder:
             if e.id in env:
                 return env[e.id]
             return self.global_name(mod, e.id, e)
+        if isinstance(e, ast.List) and any(
+                isinstance(x, ast.Starred) for x in e.elts):
+            # [*a, x, *b] is a + [x] + b for lists
+            acc = []
+            for x in e.elts:
+                if isinstance(x, ast.Starred):
+                    v = self.expr(x.value, env, mod, depth)
+                    if isinstance(v, tuple):
+                        v = list(v)
+                    if not isinstance(v, (list, GuardedList)):
+                        raise AnalysisError('folding: starred element')
+                else:
+                    v = [self.expr(x, env, mod, depth)]
+                acc = self.binop(ast.Add(), acc, v, e) if (
+                    isinstance(acc, GuardedList)
+                    or isinstance(v, GuardedList)) else acc + v
+            return acc
         if isinstance(e, ast.List):
             return [self.expr(x, env, mod, depth) for x in self._elts(
                 e.elts, env, mod, depth)]
@@ -688,6 +718,10 @@ class Folder:
             for cm, cn in self.mro(o.cls):
                 q = f'{cn}.{name}'
                 if q in cm.funcs:
+                    if any(isinstance(d_, ast.Name)
+                           and d_.id == 'staticmethod'
+                           for d_ in cm.funcs[q].decorator_list):
+                        return FuncRef(cm, q, cm.funcs[q])
                     return BoundMethod(o, cm.funcs[q])
                 # class attribute
                 cd = cm.classes[cn]
